@@ -7,6 +7,9 @@ use tracing::{debug, error, info};
 
 pub enum WalMessage {
     Entry(WalEntry),
+    /// Start a new log file: sent when the memtable rotates, so that the newest
+    /// log never holds entries of an already rotated (flushed) memtable.
+    Rotate,
     Shutdown,
 }
 
@@ -48,6 +51,13 @@ impl WalHandle {
                 shard_id = self.shard_id,
                 "Attempted to append to WAL with no active writer"
             );
+        }
+    }
+
+    /// Ask the writer to close the current log file and continue in a new one.
+    pub async fn rotate(&self) {
+        if let Some(sender) = &self.sender {
+            let _ = sender.send(WalMessage::Rotate).await;
         }
     }
 
@@ -128,6 +138,17 @@ impl WalHandle {
                                     target: "wal_handle::spawn_wal_thread",
                                     shard_id, new_log_id = writer.current_log_id,
                                     "WAL log rotated"
+                                );
+                            }
+                        }
+                    }
+                    WalMessage::Rotate => {
+                        if writer.entries_written > 0 {
+                            if let Err(err) = writer.rotate_log_file() {
+                                error!(
+                                    target: "wal_handle::spawn_wal_thread",
+                                    shard_id, err = ?err,
+                                    "WAL rotation failed"
                                 );
                             }
                         }
